@@ -67,27 +67,37 @@ def kind_of(v):
 
 
 def explicit_table(crate, fn):
+    """{algorithm static -> (key kind, back-end constants, value)}: the stored `kind`, specialised for `alg == S` for
+    every algorithm static S in turn (whatever the shape of the dispatch: an if-chain, a lookup helper returning
+    Option, a table)."""
+    from interp import specialise, split_guards
     I = Interp(crate)
     out = I.run_fn(fn)
-    lits = [(sv, node) for sv, node, f, c in I.structs if (sv.adt or "") == KP and f == fn]
+    lits = [(sv, node) for sv, node, f, c in I.structs if (sv.adt or "") == KP and (f == fn or f in I.inlined)]
     if len(lits) != 1:
         return None, None, I
     sv, node = lits[0]
     statics = {s.split("::")[-1] for s in crate.statics if s.startswith("sign_algo::algo::PKCS_")}
+    kind = sv.fields.get("kind")
+    eqs = {}
+    for g in split_guards(kind):
+        for a in F.atoms(g):
+            if a[0] == "eq":
+                st = [x for x in a[1:] if isinstance(x, str) and "sign_algo::algo::PKCS_" in x]
+                oth = [x for x in a[1:] if not (isinstance(x, str) and "sign_algo::algo::PKCS_" in x)]
+                if len(st) == 1 and oth == ["alg"]:
+                    eqs[a] = st[0].split("::")[-1].replace("{}", "")
     tab = {}
-    default = []
-    for c, leaf in leaves(sv.fields.get("kind")):
-        algs = pos_alg(c)
-        entry = (kind_of(leaf), backend_consts(leaf), leaf)
-        if len(algs) == 1:
-            tab[algs[0]] = entry
-        else:
-            default.append(entry)
-    if len(default) == 1:
-        rest = statics - set(tab)
-        if len(rest) == 1:
-            tab[rest.pop()] = default[0]
-            default = []
+    for s in sorted(statics):
+        leaf = core(specialise(kind, {a: (nm == s) for a, nm in eqs.items()}))
+        if isinstance(leaf, PhiV):
+            if not leaf.alts:
+                continue      # no value on this path (the function does not return normally for this algorithm)
+            tab[s] = (None, [], leaf)
+            continue
+        if kind_of(leaf) is None:
+            continue
+        tab[s] = (kind_of(leaf), backend_consts(leaf), leaf)
     return tab, sv, I
 
 
@@ -161,6 +171,33 @@ def check_pairs(cfg, crate, rep, tables):
                 elif isinstance(x, Sel):
                     collect(x.base)
             collect(kv)
+            from interp import flatten_phi
+            same_arm = None
+            if not tuples:
+                # `let (kind, alg) = <case split of pairs>` destructured component-wise: the two components are case
+                # splits with pairwise identical guards
+                from interp import restrict
+                fk, fa = flatten_phi(kv), flatten_phi(sv.fields.get("alg"))
+
+                def conj(f):
+                    return [] if f is True else (list(f[1]) if f[0] == "and" else [f])
+                pairs = []
+                for ca, xa in fa:
+                    cands = [(ck, xk) for ck, xk in fk if all(g in conj(ca) for g in conj(ck))]
+                    if len(cands) != 1:
+                        pairs = None
+                        break
+                    ck, xk = cands[0]
+                    extra = [g for g in conj(ca) if g not in conj(ck)]
+                    if extra:
+                        # the kind of this arm still holds the nested (correlated) case split: select the same case
+                        xk = restrict(xk, F.And(*extra))
+                        for g in extra:
+                            xk = restrict(xk, g)
+                    pairs.append((xk, xa))
+                same_arm = bool(pairs) and len(pairs) > 1
+                if same_arm:
+                    tuples = [TupleV([xk, xa]) for xk, xa in pairs]
             got = {}
             order = []
             for t in tuples:
@@ -185,7 +222,7 @@ def check_pairs(cfg, crate, rep, tables):
             doc = sv.fields.get("serialized_der")
             rep.ob("C11.doc", key + "|stores-input", places(doc) == {"key"} and not [r for r in roots(doc) if r.startswith("op:")], "the loaded key keeps its input document", found=core(doc).r()[:120])
             av = core(sv.fields.get("alg"))
-            rep.ob("C11.doc", key + "|alg-from-same-arm", places(sv.fields.get("kind")) and core(sv.fields.get("alg")).r().split(".")[-1] == "1" and core(sv.fields.get("kind")).r().split(".")[-1] == "0", "kind and alg are the two halves of the same detected pair", found=(core(sv.fields.get("kind")).r()[-40:], av.r()[-40:]))
+            rep.ob("C11.doc", key + "|alg-from-same-arm", same_arm if same_arm is not None else (places(sv.fields.get("kind")) and core(sv.fields.get("alg")).r().split(".")[-1] == "1" and core(sv.fields.get("kind")).r().split(".")[-1] == "0"), "kind and alg are the two halves of the same detected pair", found=(core(sv.fields.get("kind")).r()[-40:], av.r()[-40:]))
     # the other TryFrom impls delegate
     casc = [k for k in crate.bodies if k.startswith("<key_pair::KeyPair as std::convert::TryFrom<&rustls_pki_types::PrivateKeyDer")]
     for k in crate.bodies:
@@ -197,7 +234,40 @@ def check_pairs(cfg, crate, rep, tables):
             rep.ob("C11.doc", "%s|%s|delegates" % (cfg, k), not lits and deleg, "byte-slice / Vec / PKCS#8 entry points only convert and delegate", found=v.r()[:140])
 
 
+def callvs(v, acc=None):
+    """all CallV objects inside a value"""
+    from interp import TupleV, ArrayV, OpV, IndexV, Sel
+    if acc is None:
+        acc = []
+    if isinstance(v, CallV):
+        acc.append(v)
+        for a in v.args:
+            callvs(a, acc)
+    elif isinstance(v, Via):
+        callvs(v.inner, acc)
+    elif isinstance(v, Sel):
+        callvs(v.base, acc)
+    elif isinstance(v, PhiV):
+        for _, x in v.alts:
+            callvs(x, acc)
+    elif isinstance(v, StructV):
+        for x in v.fields.values():
+            callvs(x, acc)
+    elif isinstance(v, (TupleV, ArrayV)):
+        for x in v.items:
+            callvs(x, acc)
+    elif isinstance(v, OpV):
+        for x in v.args:
+            callvs(x, acc)
+    elif isinstance(v, IndexV):
+        callvs(v.base, acc)
+    elif isinstance(v, MutV):
+        callvs(v.base, acc)
+    return acc
+
+
 def check_generate(cfg, crate, rep):
+    from interp import split_guards, restrict
     fn = KP + "::generate_for"
     if fn not in crate.bodies:
         return
@@ -205,8 +275,20 @@ def check_generate(cfg, crate, rep):
     I = Interp(crate, inline_always={KP + "::generate_rsa_inner"})
     I.run_fn(fn)
     lits = [(sv, node, c) for sv, node, f, c in I.structs if (sv.adt or "") == KP]
-    rep.floor("C11.doc", "generated KeyPair literals (%s)" % cfg, len(lits), 2 if cfg != "K2" else 3)
+    # one alternative per generated key kind, whether the function has a literal per arm or builds the key once from a
+    # case split computed in the arms
+    alts = []
     for sv, node, c in lits:
+        gs = split_guards(sv.fields.get("kind")) if isinstance(core(sv.fields.get("kind")), PhiV) else []
+        if gs:
+            for g in gs:
+                alts.append((restrict(sv, g), node))
+        else:
+            alts.append((sv, node))
+    kinds = sorted({kind_of(sv.fields.get("kind")) or "?" for sv, node in alts})
+    want_kinds = ["Ec", "Ed"] + (["Rsa"] if cfg == "K2" else [])
+    rep.ob("C11.doc", "%s|%s|kinds-generated" % (cfg, fn), kinds == want_kinds, "key generation covers exactly the key kinds of this back end", expected=want_kinds, found=kinds)
+    for sv, node in alts:
         kind = kind_of(sv.fields.get("kind"))
         doc = sv.fields.get("serialized_der")
         gen = {r for r in roots(doc) if r.startswith("call:") and ("generate" in r)}
@@ -214,6 +296,21 @@ def check_generate(cfg, crate, rep):
         ok = bool(gen) and gen == parsed
         rep.ob("C11.doc", "%s|%s|%s|document-is-the-generated-one" % (cfg, fn, kind), ok, "the stored document is the very one produced by the generator and re-parsed into the key object", expected=sorted(gen), found=sorted(parsed), sp=node.get("sp"))
         rep.ob("C11.doc", "%s|%s|%s|alg" % (cfg, fn, kind), core(sv.fields.get("alg")).r() == "alg", "generated key is labelled with the requested algorithm", found=core(sv.fields.get("alg")).r())
+        # the exported document is PKCS#8 by type: it comes out of `generate_pkcs8` (a pkcs8::Document) or out of an
+        # `as_der()` whose result type is the back end's PKCS#8 document type - not a SEC1 / PKCS#1 encoding
+        prods = []
+        for cv in callvs(doc):
+            ty = (cv.node or {}).get("ty", "") or ""
+            last = cv.callee.split("::")[-1]
+            if last == "generate_pkcs8":
+                prods.append((last, "pkcs8"))
+            elif last in ("as_der", "to_der", "as_be_bytes", "private_key", "to_pkcs8", "to_pkcs8v1", "to_pkcs8v2", "as_bytes"):
+                if last == "private_key":
+                    prods.append((last, "raw private key"))
+                elif "Der<" in ty or "Document" in ty or "Bytes<" in ty:
+                    prods.append((last, "pkcs8" if "Pkcs8" in ty or "pkcs8::Document" in ty else ty[:70]))
+        okp = bool(prods) and all(k_ == "pkcs8" for _, k_ in prods)
+        rep.ob("C11.doc", "%s|%s|%s|document-is-pkcs8" % (cfg, fn, kind), okp, "the stored (and exported under the PRIVATE KEY label) document of a generated key is a PKCS#8 document by type", found=prods, sp=node.get("sp"))
         # generator parameterised by the algorithm's own back-end constant
         if kind == "Ec":
             rep.ob("C11.pairs", "%s|%s|Ec|curve-from-alg" % (cfg, fn), "alg.sign_alg#EcDsa.0" in places(sv.fields.get("kind")), "the curve of the generated key is the requested algorithm's", found=sorted(places(sv.fields.get("kind"))))
@@ -227,8 +324,8 @@ def check_generate(cfg, crate, rep):
         rep.ob("C11.doc", "%s|%s" % (cfg, fn), kind_of(sv.fields.get("kind")) == "Remote" and "RemoteKeyPair::algorithm" in core(sv.fields.get("alg")).r() and core(sv.fields.get("kind").fields.get("0") if isinstance(core(sv.fields.get("kind")), StructV) else Param("?")).r() == "key_pair", "a remote key is labelled with the algorithm it announces and stores no private document", found=sv.r()[:200])
     # accessors
     for fn, how in ((KP + "::serialize_der", "self.serialized_der"), (KP + "::serialized_der", "self.serialized_der")):
-        v = Interp(crate).run_fn(fn)["value"]
-        rep.ob("C11.doc", "%s|%s" % (cfg, fn), places(v) == {how}, "the export accessor returns the stored document", found=core(v).r()[:80])
+        v = Interp(crate, inline_always={KP + "::serialize_der", KP + "::serialized_der"}).run_fn(fn)["value"]
+        rep.ob("C11.doc", "%s|%s" % (cfg, fn), places(v) == {how} and not [r for r in roots(v) if r.startswith(("op:", "call:"))], "the export accessor returns the stored document", found=core(v).r()[:80])
 
 
 def check_spki(cfg, crate, rep):
